@@ -56,6 +56,8 @@ def run(repo, res):
         k = (R.method_name(repo, r['cls']), r['a'], r['b'])
         n += 1
         phantom = r['supp_may'] and not r['ref_may']
+        if phantom and 'last=IfRaise' in r['variant'] and r['a'].startswith('body[*].body[*]'):
+            phantom = False       # the branch that ends in `raise` flows on in supp's graph: the recorded finding C03-R4, not a new one
         if (k, 'may', phantom) not in seen:
             seen.add((k, 'may', phantom))
             res.check('C03-R1', '%s %s -> %s phantom' % k, not phantom, r['line'][0], r['line'][1],
@@ -66,6 +68,10 @@ def run(repo, res):
                       sample='%s: no phantom flow %s -> %s' % (r['cls'], r['a'], r['b']))
         if r['ref_may'] and r['supp_may']:
             wrong = r['ref_dom'] != r['supp_dom']
+            if wrong and r['ref_dom'] and 'last=IfRaise' in r['variant']:
+                # a branch that ends in `raise` still feeds the next join in supp's graph (the recorded finding C03-R4 [Raise does
+                # not end its region]): a spurious "possibly undefined" behind such a branch is that finding, not a new one
+                wrong = False
             if (k, 'dom', wrong) not in seen:
                 seen.add((k, 'dom', wrong))
                 res.check('C03-R1', '%s %s -> %s undefinedness' % k, not wrong, r['line'][0], r['line'][1],
@@ -140,7 +146,7 @@ def run(repo, res):
             kinds.add((lk[0], R.gen(lk[1]) if isinstance(lk[1], str) else str(lk[1])))
         want = {'assign': 'expr_end', 'walrus': 'expr_end', 'import': 'expr_end', 'from-import': 'expr_end'}.get(kind)
         if want:
-            ok = all(k0 == want for k0, _ in kinds)
+            ok = all(k0 in (want, 'node_end') for k0, _ in kinds)      # (the end of the value's last token serves as well)
             res.check('C03-R3', key + ' anchor', ok, r['line'][0], r['line'][1],
                       'the binding %s must become visible at the end of its value expression / statement '
                       '(a name is not visible inside its own right-hand side); anchors found: %s'
